@@ -12,3 +12,57 @@ package check
 //@   ensures @notServed !ok ==> res == nil
 //@   monitor noCacheOnHigher
 //@     before call storage.InMemoryCache.* : assert consistency != openfgav1.ConsistencyPreference_HIGHER_CONSISTENCY
+
+// ------------------------------------------------------------------ C04 / C24 / C08: the request's cache keys fold in every input
+// the invariant key is built from this request's store, model, context and ALL its contextual tuples; the sub-problem
+// key from the store, the tuple's object, relation, user and that invariant key
+//@ func NewRequest(p) (r, err)
+//@   property C04 C08 C24
+//@   option nosafety
+//@   ensures @inv err == nil ==> invCalled && invOK
+//@   ensures @key err == nil ==> keyCalled && keyOK
+//@   ensures @built err == nil ==> r != nil && finished && r == finishedReq
+//@   ensures @failClosed err != nil ==> r == nil
+//@   monitor keyInputs
+//@     ghost invCalled = false
+//@     ghost invOK = false
+//@     ghost invKey int = 0
+//@     ghost keyCalled = false
+//@     ghost keyOK = false
+//@     ghost built S_keys.Key = built
+//@     ghost finished = false
+//@     ghost finishedReq *check.Request = nil
+//@     before call (*check.Request).buildContextualTupleMaps args rr : assert rr != nil && invCalled && keyCalled && rr.invariantCacheKey == invKey && rr.cacheKey == built && rr.StoreID == p.StoreID && rr.ContextualTuples == p.ContextualTuples && rr.Context == p.Context && rr.Consistency == p.Consistency && rr.TupleKey == p.TupleKey
+//@     after call (*check.Request).buildContextualTupleMaps args rr : finished = true ; finishedReq = rr
+//@     after call storage.InvariantCacheKey args s, m, c, tks returning k : invCalled = true ; invKey = k ; invOK = s == p.StoreID && m == old(p.Model.GetModelID()) && c == p.Context && tks == p.ContextualTuples
+//@     after call storage.CheckCacheKey args s, o, rl, u, inv returning k : keyCalled = true ; built = k ; keyOK = s == p.StoreID && o == p.TupleKey.GetObject() && rl == p.TupleKey.GetRelation() && u == p.TupleKey.GetUser() && inv == invKey
+
+// the tuples an edge evaluation sees are the stored ones (the iterator handed in) preceded by the request's
+// contextual tuples for this object, relation and user type whenever there are any; filtering only wraps that sequence
+//@ func (*Resolver).buildIterator(r, ctx, req, iter, conditions, relation, userType, visited) (res)
+//@   property C04
+//@   option nosafety
+//@   ensures @storedIncluded converted && convArg == iter
+//@   ensures @contextualMerged ctxLooked && (ctxFound ==> concatenated && concatOK)
+//@   ensures @onlyWrapped res == cur || (filtered && filterArg == cur && res == filterRes)
+//@   monitor merge
+//@     ghost converted = false
+//@     ghost convArg iface = nil
+//@     ghost base iface = nil
+//@     ghost cur iface = nil
+//@     ghost ctxLooked = false
+//@     ghost ctxFound = false
+//@     ghost ctxTs []*openfgav1.TupleKey = ctxTs
+//@     ghost staticIt iface = nil
+//@     ghost staticOK = false
+//@     ghost concatenated = false
+//@     ghost concatOK = false
+//@     ghost filtered = false
+//@     ghost filterArg iface = nil
+//@     ghost filterRes iface = nil
+//@     after call storage.NewTupleKeyIteratorFromTupleIterator args it returning k : converted = true ; convArg = it ; base = k ; cur = k
+//@     before call (*check.Request).GetContextualTuplesByObjectID args rq, o, rel, ut : assert rq == req && o == req.GetTupleKey().GetObject() && rel == relation && ut == userType
+//@     after call (*check.Request).GetContextualTuplesByObjectID returning ts, ok : ctxLooked = true ; ctxFound = ok ; ctxTs = ts
+//@     after call storage.NewStaticTupleKeyIterator args ts returning s : staticIt = s ; staticOK = ts == ctxTs
+//@     after call iterator.Concat args a, b returning c : concatenated = true ; concatOK = staticOK && a == staticIt && b == base && converted ; cur = c
+//@     after call iterator.NewFilteredIterator args it, fs returning f : filtered = true ; filterArg = it ; filterRes = f
